@@ -77,7 +77,7 @@ def evaluate(case):
     kw = {"strip_suffix": case.get("strip_suffix", False), "platform_aware": case.get("platform_aware", False)}
     rb = core.call(fu, base, **kw)
     if rb[0] != "ok":
-        return [], ["ood.base-raises"], None
+        return [(PROP + ".returns", "a fingerprint", {"url": base, "got": list(rb)})], ["base-raises"], None
     fails = []
     if not shape_ok(rb[1]):
         fails.append((PROP + ".shape", "no scheme, userinfo or port", {"url": base, "fingerprint": rb[1]}))
@@ -168,9 +168,20 @@ def with_lang(u, label):
     return u.replace(host, label + "." + host, 1)
 
 
+UNPARSEABLE = ["http://www.a.com:99999/", "http://a.com:xx/p", "http://[::1", "http://a]", "", "http://", "//", "http://u@[", "http://x.cdn.ampproject.org/v/s/?gl=us",
+               "http://www./p", "http://m.:8080/a?b=1"]
+
+
 def judge_flat(w):
     fu = importlib.import_module("ural").fingerprint_url
     kw = {"strip_suffix": w.get("strip_suffix", False)}
+    if w["kind"] == "returns":
+        kw["platform_aware"] = w.get("platform_aware", False)
+        r = core.call(fu, w["url"], **kw)
+        r2 = core.call(fu, w["url"], unsplit=False, **kw)
+        if r[0] != "ok" or not isinstance(r[1], str) or r2[0] != "ok":
+            return [(PROP + ".returns", "a string (and no exception with unsplit=False)", [list(r)[:3], list(r2)[:1] + [repr(x)[:80] for x in r2[1:3]]])]
+        return []
     if w["kind"] == "port":
         base, var = w["base"], with_port(w["base"], w["port"])
     elif w["kind"] == "lang":
@@ -205,6 +216,10 @@ def flat_cases(tier):
         for ss in (False, True):
             for p in range(1, 65536):
                 out.append({"kind": "port", "base": b, "port": p, "strip_suffix": ss})
+    for u in UNPARSEABLE:
+        for ss in (False, True):
+            for pa in (False, True):
+                out.append({"kind": "returns", "url": u, "strip_suffix": ss, "platform_aware": pa})
     codes = iso()
     labels = []
     for c in codes:
@@ -284,6 +299,8 @@ def simplify(w):
     if "case" in w:
         return the_grid("thorough").wsimplify(w)
     out = []
+    if w.get("platform_aware"):
+        out.append(dict(w, platform_aware=False))
     if w.get("strip_suffix") and w["kind"] != "suffix":
         out.append(dict(w, strip_suffix=False))
     if w.get("base") and w["base"] != FLAT_BASES[0]:
